@@ -4,6 +4,7 @@ emitted charstrings INDEX back, the per-glyph statement, order independence, and
 (grouping) lemma "same decoded INDEX, offSize may differ".
 -/
 import FontVerif.Lemmas.IftGvar
+import FontVerif.Lemmas.IftTotal
 set_option linter.unusedVariables false
 namespace FontVerif.Ift
 
@@ -120,6 +121,72 @@ theorem cff_choose_type (ix : IndexView) (t0 : OffsetType) (h0 : IsCffType t0) (
     simp only [cffArray, List.mem_cons, List.not_mem_nil, or_false] at hm
     exact hm
 
+/-- the smallest offSize whose offsets can address `T` bytes of charstring data -/
+def cffNeed (T : Nat) : Nat :=
+  if T ≤ 254 then 1 else if T ≤ 65534 then 2 else if T ≤ 16777214 then 3 else 4
+
+theorem cff_max_values : OffsetType.cffOne.maxRepresentable = 254 ∧ OffsetType.cffTwo.maxRepresentable = 65534 ∧
+    OffsetType.cffThree.maxRepresentable = 16777214 ∧ OffsetType.cffFour.maxRepresentable = 4294967294 := by
+  decide
+
+/-- the offset type chosen for a CFF INDEX: never narrower than the current one, and exactly wide
+enough otherwise -/
+theorem cff_choose_width (ix : IndexView) (t0 : OffsetType) (h0 : IsCffType t0) (T : Nat) (t : OffsetType)
+    (h : chooseOffsetType (cffArray ix t0) T = .ok t) : t.width = max t0.width (cffNeed T) := by
+  obtain ⟨m1, m2, m3, m4⟩ := cff_max_values
+  obtain ⟨c1, c2, c3⟩ := chooseOffsetType_spec _ T t h
+  simp only [cffArray] at c2 c3
+  by_cases hfit : T ≤ t0.maxRepresentable
+  · have := c2 hfit
+    subst this
+    unfold cffNeed
+    rcases h0 with e | e | e | e <;> subst e <;> simp only [OffsetType.width] <;>
+      (first | rw [m1] at hfit | rw [m2] at hfit | rw [m3] at hfit | rw [m4] at hfit) <;>
+      split <;> (try split) <;> (try split) <;> omega
+  · obtain ⟨_, pre, post, hd, hpre⟩ := c3 (by omega)
+    have hwide : t0.width < cffNeed T ∧ t.width = cffNeed T := by
+      unfold cffNeed
+      rcases pre with _ | ⟨p1, _ | ⟨p2, _ | ⟨p3, _ | ⟨p4, pre'⟩⟩⟩⟩
+      · simp only [List.nil_append, List.cons.injEq] at hd
+        obtain ⟨e, _⟩ := hd
+        subst e
+        rw [m1] at c1
+        rcases h0 with e | e | e | e <;> subst e <;>
+          (first | rw [m1] at hfit | rw [m2] at hfit | rw [m3] at hfit | rw [m4] at hfit) <;> omega
+      · simp only [List.cons_append, List.nil_append, List.cons.injEq] at hd
+        obtain ⟨e1, e, _⟩ := hd
+        subst e e1
+        have := hpre .cffOne (by simp)
+        rw [m1] at this
+        rw [m2] at c1
+        simp only [OffsetType.width]
+        rcases h0 with e | e | e | e <;> subst e <;> simp only [OffsetType.width] <;>
+          (first | rw [m1] at hfit | rw [m2] at hfit | rw [m3] at hfit | rw [m4] at hfit) <;>
+          split <;> (try split) <;> (try split) <;> omega
+      · simp only [List.cons_append, List.nil_append, List.cons.injEq] at hd
+        obtain ⟨e1, e2, e, _⟩ := hd
+        subst e e1 e2
+        have := hpre .cffTwo (by simp)
+        rw [m2] at this
+        rw [m3] at c1
+        simp only [OffsetType.width]
+        rcases h0 with e | e | e | e <;> subst e <;> simp only [OffsetType.width] <;>
+          (first | rw [m1] at hfit | rw [m2] at hfit | rw [m3] at hfit | rw [m4] at hfit) <;>
+          split <;> (try split) <;> (try split) <;> omega
+      · simp only [List.cons_append, List.nil_append, List.cons.injEq] at hd
+        obtain ⟨e1, e2, e3, e, _⟩ := hd
+        subst e e1 e2 e3
+        have := hpre .cffThree (by simp)
+        rw [m3] at this
+        rw [m4] at c1
+        simp only [OffsetType.width]
+        rcases h0 with e | e | e | e <;> subst e <;> simp only [OffsetType.width] <;>
+          (first | rw [m1] at hfit | rw [m2] at hfit | rw [m3] at hfit | rw [m4] at hfit) <;>
+          split <;> (try split) <;> (try split) <;> omega
+      · simp only [List.cons_append, List.cons.injEq] at hd
+        obtain ⟨_, _, _, _, hd⟩ := hd
+        cases pre' <;> simp at hd
+    omega
 /-- for a base INDEX whose decoded offsets ascend (last entry included) the code's own check, which
 skips the last entry, is sound -/
 theorem cffArray_ascSound (ix : IndexView) (t : OffsetType) (h : ascending (cffOffsets ix) = true) :
@@ -250,7 +317,8 @@ theorem cffPatch_parts (v2 : Bool) (ift : Option Bytes) (b : Bytes) (gps : List 
         (total ≤ t0.maxRepresentable → t = t0) ∧
         (t0.maxRepresentable < total →
           ∃ pre post, [OffsetType.cffOne, .cffTwo, .cffThree, .cffFour] = pre ++ t :: post ∧
-            ∀ c ∈ pre, c.maxRepresentable < total)) ∧
+            ∀ c ∈ pre, c.maxRepresentable < total) ∧
+        chooseOffsetType (cffArray ix t0) total = .ok t) ∧
       (∀ x ∈ repl, x.1 ≤ m) ∧
       (ascending (cffOffsets ix) = true →
         out = cffEmit v2 (b.take at_) (m + 1) t
@@ -278,7 +346,7 @@ theorem cffPatch_parts (v2 : Bool) (ift : Option Bytes) (b : Bytes) (gps : List 
       · have := (List.pairwise_append.mp hsort).2.2 x e y (by simp)
         omega
       · simp only [List.mem_singleton] at e; subst e; exact hlast
-  refine ⟨at_, ix, t0, repl, t, ha, hv, hd, ht0, ht, ⟨total, h1, c1, c2, fun hlt => (c3 hlt).2⟩, hrepl, ?_⟩
+  refine ⟨at_, ix, t0, repl, t, ha, hv, hd, ht0, ht, ⟨total, h1, c1, c2, fun hlt => (c3 hlt).2, h2⟩, hrepl, ?_⟩
   intro hasc
   have hA := cffArray_ascSound ix t0 hasc
   obtain ⟨e1, e2⟩ := patchOffsetArray_eq _ repl m hA hsort t data offs hp
@@ -315,7 +383,7 @@ theorem cffPatch_spec (v2 : Bool) (ift : Option Bytes) (b : Bytes) (gps : List G
   obtain ⟨at_, ix, t0, repl, t, ha, hv, hd, ht0, ht, htot, hrepl, hrest⟩ := cffPatch_parts v2 ift b gps m out h
   obtain ⟨hle, hir, hot, hcnt⟩ := cffView_ok v2 b at_ m ix t0 hv
   obtain ⟨hsort, _, hlk⟩ := dedup_spec (cffTag v2) gps repl hd
-  obtain ⟨total, t1, t2, t3, t4⟩ := htot
+  obtain ⟨total, t1, t2, t3, t4, _⟩ := htot
   refine ⟨at_, ix, t0, t, ha, hv, ht0, ht, ⟨repl, total, hd, t1, t2, t3, t4⟩, ?_, ?_⟩
   · intro g d hfw
     rw [← hlk g] at hfw
@@ -431,10 +499,13 @@ theorem cffPatch_two_step (v2 : Bool) (ift : Option Bytes) (b : Bytes) (gps1 gps
     ∃ at_ os data t2 t12, iftCharstringsOffset ift v2 = some at_ ∧ at_ ≤ b.length ∧
       IsCffType t2 ∧ IsCffType t12 ∧
       out2 = cffEmit v2 (b.take at_) (m + 1) t2 (encodeOffs t2 os) data ∧
-      out12 = cffEmit v2 (b.take at_) (m + 1) t12 (encodeOffs t12 os) data := by
-  obtain ⟨at_, ix, t0, repl1, t1, ha, hv, hd1, ht0, ht1, _, _, hr1⟩ := cffPatch_parts v2 ift b gps1 m out1 h1
-  obtain ⟨at', ix1, t1', repl2, t2, ha', hv1, hd2, _, ht2, _, _, hr2⟩ := cffPatch_parts v2 ift out1 gps2 m out2 h2
-  obtain ⟨at'', ix', t0', repl12, t12, ha'', hv', hd12, _, ht12, _, _, hr12⟩ :=
+      out12 = cffEmit v2 (b.take at_) (m + 1) t12 (encodeOffs t12 os) data ∧
+      t12.width ≤ t2.width ∧
+      (∀ ix t0, cffView v2 b at_ m = .ok (ix, t0) →
+        ((out1.drop (at_ + cffCountWidth v2)).headD 0 = t0.width → out2 = out12)) := by
+  obtain ⟨at_, ix, t0, repl1, t1, ha, hv, hd1, ht0, ht1, htot1, hle1, hr1⟩ := cffPatch_parts v2 ift b gps1 m out1 h1
+  obtain ⟨at', ix1, t1', repl2, t2, ha', hv1, hd2, _, ht2, htot2, hle2, hr2⟩ := cffPatch_parts v2 ift out1 gps2 m out2 h2
+  obtain ⟨at'', ix', t0', repl12, t12, ha'', hv', hd12, _, ht12, htot12, hle12, hr12⟩ :=
     cffPatch_parts v2 ift b (gps1 ++ gps2) m out12 h12
   rw [ha] at ha' ha''
   cases ha'; cases ha''
@@ -443,7 +514,7 @@ theorem cffPatch_two_step (v2 : Bool) (ift : Option Bytes) (b : Bytes) (gps1 gps
   have hA := hasc at_ ix t0 ha hv
   obtain ⟨hle, _, _, hcnt⟩ := cffView_ok v2 b at_ m ix t0 hv
   obtain ⟨e1, hb1, _⟩ := hr1 hA
-  obtain ⟨e12, _, _⟩ := hr12 hA
+  obtain ⟨e12, _, hk12⟩ := hr12 hA
   -- the intermediate table read back
   generalize hcs1 : chunks (cffArray ix t0) t1 repl1 m = cs1 at e1 hb1
   have hcs1len : cs1.length = m + 1 := by rw [← hcs1, chunks_length]
@@ -481,11 +552,11 @@ theorem cffPatch_two_step (v2 : Bool) (ift : Option Bytes) (b : Bytes) (gps1 gps
   have hA1 : ascending (cffOffsets (IndexView.mk (m + 1) t1.width (encodeOffs t1 (newOffsets cs1)) cs1.flatten))
       = true := by
     rw [hoffs]; exact pairwise_ascending _ (newOffsets_pairwise cs1)
-  obtain ⟨e2, _, _⟩ := hr2 hA1
+  obtain ⟨e2, _, hk2⟩ := hr2 hA1
   -- the chunks of both routes coincide
-  obtain ⟨_, _, lk1⟩ := dedup_spec (cffTag v2) gps1 repl1 hd1
-  obtain ⟨_, _, lk2⟩ := dedup_spec (cffTag v2) gps2 repl2 hd2
-  obtain ⟨_, _, lk12⟩ := dedup_spec (cffTag v2) (gps1 ++ gps2) repl12 hd12
+  obtain ⟨sr1, _, lk1⟩ := dedup_spec (cffTag v2) gps1 repl1 hd1
+  obtain ⟨sr2, _, lk2⟩ := dedup_spec (cffTag v2) gps2 repl2 hd2
+  obtain ⟨sr12, _, lk12⟩ := dedup_spec (cffTag v2) (gps1 ++ gps2) repl12 hd12
   have hchunks : chunks (cffArray (IndexView.mk (m + 1) t1.width (encodeOffs t1 (newOffsets cs1)) cs1.flatten) t1)
         t2 repl2 m = chunks (cffArray ix t0) t12 repl12 m := by
     rw [chunks_cff_indep _ t2 t1 ht2 ht1, chunks_cff_indep _ t12 t1 ht12 ht1]
@@ -512,8 +583,34 @@ theorem cffPatch_two_step (v2 : Bool) (ift : Option Bytes) (b : Bytes) (gps1 gps
     rw [e1]; unfold cffEmit
     rw [List.append_assoc, List.append_assoc, List.append_assoc]
     exact List.take_left' hpl
+  -- the offset widths: both routes see the same total
+  obtain ⟨T1, _, _, _, _, hch1⟩ := htot1
+  obtain ⟨T2, hT2, _, _, _, hch2⟩ := htot2
+  obtain ⟨T12, hT12, _, _, _, hch12⟩ := htot12
+  have hTeq : T2 = T12 := by
+    have a2 := totalDataSize_eq _ repl2 m T2
+      (by show (cffOffsets _).Pairwise _; rw [hoffs]; exact newOffsets_pairwise cs1) sr2 hle2 hk2 hT2
+    have a12 := totalDataSize_eq _ repl12 m T12
+      (by show (cffOffsets ix).Pairwise _; exact ascending_pairwise _ hA) sr12 hle12 hk12 hT12
+    rw [a2, a12]
+    show (chunks _ t1 repl2 m).flatten.length = (chunks _ t0 repl12 m).flatten.length
+    rw [chunks_cff_indep _ t1 t2 ht1 ht2, hchunks, chunks_cff_indep _ t12 t0 ht12 ht0]
+  subst hTeq
+  have w1 := cff_choose_width ix t0 ht0 T1 t1 hch1
+  have w2 := cff_choose_width _ t1 ht1 T2 t2 hch2
+  have w12 := cff_choose_width ix t0 ht0 T2 t12 hch12
   refine ⟨at_, newOffsets (chunks (cffArray ix t0) t12 repl12 m),
-    (chunks (cffArray ix t0) t12 repl12 m).flatten, t2, t12, ha, hle, ht2, ht12, ?_, e12⟩
-  rw [e2, hchunks, hpre]
+    (chunks (cffArray ix t0) t12 repl12 m).flatten, t2, t12, ha, hle, ht2, ht12, ?_, e12, by omega, ?_⟩
+  · rw [e2, hchunks, hpre]
+  · intro ix' t0' hv'' hbyte
+    rw [hv] at hv''
+    cases hv''
+    have hb := cffEmit_offSize v2 (b.take at_) (m + 1) t1 (encodeOffs t1 (newOffsets cs1)) cs1.flatten
+    rw [hpl, ← e1, hbyte] at hb
+    have e10 : t1 = t0 := (IsCffType.eq_of_width ht0 ht1 hb).symm
+    subst e10
+    have : t2 = t12 := IsCffType.eq_of_width ht2 ht12 (by omega)
+    subst this
+    rw [e2, hchunks, hpre, e12]
 
 end FontVerif.Ift
